@@ -25,6 +25,8 @@ def run_impl(case, cfg=None, cls=None):
         cls = PageTextTemplate
     if 'boolean_attributes' in config:
         config['boolean_attributes'] = set(config['boolean_attributes'])
+    if 'implicit_i18n_attributes' in config:
+        config['implicit_i18n_attributes'] = set(config['implicit_i18n_attributes'])
     config.setdefault('on_error_handler', lambda e: handled.append(type(e).__name__))
     tlog = []
     if case.get('translate') == 'record':
